@@ -168,10 +168,8 @@ class Ctx:
         if z3.is_false(b):
             raise Infeasible()
         self.pc.append(b)
-        self.pc_raw.append(raw)
-        # the *unsimplified* formula goes to the solver: z3's simplifier introduces internal
-        # partial functions (seq.nth_i / seq.nth_u) on which the seq solver answers `unknown`
-        self.solver.add(raw)
+        self.pc_raw.append(b)
+        self.solver.add(b)
 
     def _check(self, extra):
         t0 = time.time()
@@ -215,7 +213,6 @@ class Ctx:
             return True
         if z3.is_false(c):
             return False
-        c = cond
         ft, ff = self.feasible(c)
         if ft and ff:
             take = self.choose(2, "branch") == 0
